@@ -153,3 +153,11 @@ Print Assumptions C03_DefaultFlags_is_model.
 Theorem C03_nextPacketID_is_model : Trans.Spec.T_nextPacketID.
 Proof. exact Trans.Equiv.nextPacketID_equiv. Qed.
 Print Assumptions C03_nextPacketID_is_model.
+
+(* header.decode - the fixed-header decoder every packet decoder starts with - as the source has it now, with the methods it
+   calls (Type, Flags, Valid, DefaultFlags, ValidQos), never panics and agrees with Codec.Impl.hdr_decode on the bytes
+   consumed, the error and every header field, for every header and every byte string *)
+From Trans Require EquivDecode.
+Theorem C03_header_decode_is_model : Trans.Spec.T_header_decode.
+Proof. exact Trans.EquivDecode.header_decode_equiv. Qed.
+Print Assumptions C03_header_decode_is_model.
